@@ -14,25 +14,10 @@ QUERIES = [teb_ind(1, 'quick'), teb_ind(2, 'quick'), teb_bmc(1, 4, 'thorough'), 
 BOUNDS = 'K2: capacities 1..8'
 OUTSIDE = 'end-to-end composition of the kernels is argued in DESIGN.md, not solved'
 ASSUMPTIONS = ['TransitEvent payload replaced by a shallow 56-byte model (rt/m_transit.c)']
-BK_ZERO = [r'BackendWorker31_populate_formatted_log_message', r'PatternFormatter6formatEm', r'^_ZNK?8fmtquill', r'RdtscClock']
-BK_CUTS = TE_CUTS
-# functions that cannot be on a feasible path of these harnesses (no named args, no runtime metadata, no backtrace, formatter
-# objects pre-set): giving them assert(false) bodies both PROVES that and keeps the symbolic execution small
-BK_FORBID = [r'get_local_thread_context', r'16PatternFormatter(C2|D2|12_set_pattern)', r'18TimestampFormatter', r'_process_named_args_format_message',
-             r'_populate_formatted_named_args', r'_apply_runtime_metadata', r'_format_and_split_arguments', r'sanitize_non_printable_chars',
-             r'16BacktraceStorage', r'^_ZNK?St10_Hashtable', r'TransitEvent7copy_to', r'^_ZSt11make_sharedIN5quill',
-             # nothing long-lived is destroyed in these harnesses: destructors of sinks, filters, loggers, managers, contexts ...
-             r'^_ZN(5quill2v9)?(4Sink|7RecSink|6Filter|6detail11SinkManager|6detail13LoggerManager|6detail20ThreadContextManager|6detail10LoggerBase|10LoggerImplI2FOE|6detail13ThreadContext|6detail18TransitEventBuffer|6detail13BackendWorker|14BackendOptions)D[012]Ev$',
-             r'^_ZNSt23_Sp_counted_ptr_inplace', r'^_ZNSt15_Sp_counted_ptr']
-RDLOOP = '_ZN5quill2v96detail13BackendWorker31_read_and_decode_frontend_queueINS1_20BoundedSPSCQueueImplImEEEEmRT_PNS1_13ThreadContextEm.0'
-def k1k3(nctx, nrec, soft, hard, tier, timeout=None):
-    return Q('K1K3_c%d_r%d_s%d_h%d' % (nctx, nrec, soft, hard), 'C03_backend.cpp', 'h_k1k3', defines=['NCTX=%d' % nctx, 'NREC=%d' % nrec, 'SOFT=%d' % soft, 'HARD=%d' % hard, 'TEBCAP=4'],
-             cuts=BK_CUTS, zero=BK_ZERO, forbid=BK_FORBID, models=['m_transit.c', 'm_throw.c', 'm_env.c'], libmodels=['m_string.c', 'm_stl.c'], unwind=14, tier=tier, timeout=timeout,
-             unwindset=[RDLOOP + ':%d' % (nrec + 1), 'strlen.0:80'],
-             bounds='%d thread contexts x 0..%d header-only statements each (symbolic increasing distinct timestamps) produced by the real log_statement into real bounded queues; one real populate pass (hard limit %d) then real minimum-timestamp dispatch until empty; one logger with two recording sinks' % (nctx, nrec, hard),
-             what='K1+K3: every statement read once into its transit buffer (queues drained, counts equal), each dispatched exactly once to both sinks, per sink in non-decreasing timestamp order (thread order), nothing else written')
-QUERIES += [k1k3(2, 2, 4, 8, 'quick', timeout=280)]
-for _st in (1, 2, 3, 4):
-    QUERIES += [Q('dbg_stop%d' % _st, 'C03_backend.cpp', 'h_k1k3', defines=['NCTX=1', 'NREC=1', 'CNT0=1', 'STOP_AFTER=%d' % _st], cuts=BK_CUTS, zero=[r'^_ZNK?8fmtquill', r'RdtscClock'], forbid=BK_FORBID, models=['m_transit.c', 'm_throw.c', 'm_env.c'], libmodels=['m_string.c', 'm_stl.c'], unwind=24, witness=False, tier='dbg', timeout=100, validate=0)]
-QUERIES += [Q('dbg_k1only', 'C03_backend.cpp', 'h_k1k3', defines=['NCTX=1', 'NREC=1', 'CNT0=1', 'K1ONLY'], cuts=BK_CUTS, zero=[z for z in BK_ZERO if 'format' not in z or 'fmtquill' in z], forbid=BK_FORBID, models=['m_transit.c', 'm_throw.c', 'm_env.c'], libmodels=['m_string.c', 'm_stl.c'], unwind=24, witness=False, tier='dbg', timeout=100, validate=0,
-  unwindset=['_ZN5quill2v96detail13BackendWorker31_read_and_decode_frontend_queueINS1_20BoundedSPSCQueueImplImEEEEmRT_PNS1_13ThreadContextEm.0:3'])]
+# NOTE: harness/C03_backend.cpp + harness/bk.h (kernels K1/K3 on the real BackendWorker) are kept in the tree but NOT registered:
+# at 1-2 contexts x 1-2 records CBMC needed > 60 GB / did not finish in 10 min (see DESIGN.md section 7).
+MANIFEST = {
+ 'text': 'Reduced scope. Decided by the solver: kernel K2, the per-thread backend ring (TransitEventBuffer) keeps exact FIFO content across position wrap-around, expansion and shrink, as an inductive step from an arbitrary ring state. The SPSC queue obligations of this property are decided by C01/C02 (exactly-once, in order, across growth), the level gate by C16, the codec by C04. The read/decode loop (K1), the minimum-timestamp dispatch (K3), the clean-up condition (K4) and the poll skeleton (K5) on the real BackendWorker could NOT be brought under the memory/time caps and are not claimed.',
+ 'note': 'Transit ring capacities 1,2 (quick) / 4 (thorough); TransitEvent payload replaced by a shallow model. Composition of the kernels is an argument in DESIGN.md, not solved. Trusted: clang IR, translator, CBMC.',
+ 'technique': 'CBMC/SAT inductive step over clang IR of the real TransitEventBuffer from a symbolic ring state; native replay',
+}
